@@ -26,8 +26,9 @@ structure Secret where
 abbrev SMap := ExtTreeMap String Secret compare
 
 structure KV where
-  secrets : SMap
-  gen : Nat
+  secrets : SMap   -- what the running server serves (kv.secrets)
+  gen : Nat        -- write generation (kv.gen)
+  disk : SMap      -- clear contents of the database file (what the last successful save wrote)
 
 inductive Err
   | notFound        -- db.ErrNotFound
@@ -37,10 +38,13 @@ inductive Err
   | internal        -- "[unexpected] active secret version missing from DB"
   deriving DecidableEq, Repr
 
-def empty : KV := { secrets := ∅, gen := 0 }
+def empty : KV := { secrets := ∅, gen := 0, disk := ∅ }
 
-/-- kv.save(): gen++ only on success (kv.go:222-227) -/
-def save (kv : KV) (saveOk : Bool) : KV := if saveOk then { kv with gen := kv.gen + 1 } else kv
+/-- kv.save(): serialise the whole map, encrypt, atomically replace the file; gen++ only on
+success; on failure the file is unchanged (kv.go:222-251; atomicity of the replacement is
+`Model.Fs`, C04 part B). -/
+def save (kv : KV) (saveOk : Bool) : KV :=
+  if saveOk then { kv with gen := kv.gen + 1, disk := kv.secrets } else kv
 
 /-! ### read operations -/
 
